@@ -18,7 +18,7 @@ PROPS = {
         "level": "exploration",
         "budget_s": {"quick": 30, "thorough": 1200},
         "max_cases": {"quick": 0, "thorough": 0},
-        "min_fields": ["tape", "sched"],
+        "min_fields": ["tape", "sched", "pol"],
         "zero_fields": ["tape", "sched"],
         "rule": ("one case = one generated history from the choice tape. Mesh histories (3-D and 2-D): start from an empty mesh, a face soup or "
                  "the output of a library in-place editor (every entry point of the marching-cubes vertex search incl. 0 and >=53 iterations, "
@@ -45,7 +45,7 @@ PROPS = {
         "level": "exploration",
         "budget_s": {"quick": 45, "thorough": 1200},
         "max_cases": {"quick": 0, "thorough": 0},
-        "min_fields": ["sched", "work"],
+        "min_fields": ["sched", "work", "pol"],
         "zero_fields": ["sched", "work"],
         "rule": ("one case = (image size 2..24, renderer in {RecursiveRayTracer(MaxDepth 0), RayCaster, BidirPathTracer}, worker count 1..32 "
                  "(render.workers knob; more workers than pixels included), NumSamples 1..64 (one case in ten: 65..2064 on a 2x2/2x3 image, batch-size boundaries included), MinSamples 0..NumSamples and beyond, MaxStddev in {0,1e-9,0.01,0.3,1e9}, "
@@ -73,7 +73,7 @@ PROPS = {
         "level": "exploration",
         "budget_s": {"quick": 90, "thorough": 1500},
         "max_cases": {"quick": 0, "thorough": 0},
-        "min_fields": ["sched", "work"],
+        "min_fields": ["sched", "work", "pol"],
         "zero_fields": ["sched", "work"],
         "rule": ("one case = (workload, worker count, schedule) from two choice tapes, run in a -race build under the deterministic "
                  "scheduler (which the race detector cannot see). Part A: 2..8 reader tasks issue generated read-only queries (26 kinds: "
@@ -100,7 +100,7 @@ PROPS = {
         "level": "exploration",
         "budget_s": {"quick": 60, "thorough": 1500},
         "max_cases": {"quick": 0, "thorough": 0},
-        "min_fields": ["sched", "work"],
+        "min_fields": ["sched", "work", "pol"],
         "zero_fields": ["sched", "work"],
         "rule": ("one case = (solid, spacing, algorithm, configuration, schedule) drawn from two choice tapes: ordered CSG of balls and boxes "
                  "(a third with faces snapped next to lattice planes), algorithm in {MarchingCubes, MarchingCubesSearch, DualContouring "
@@ -125,7 +125,7 @@ PROPS = {
         "level": "exploration",
         "budget_s": {"quick": 25, "thorough": 1200},
         "max_cases": {"quick": 78000, "thorough": 0},
-        "min_fields": ["sched", "tape"],
+        "min_fields": ["sched", "tape", "pol"],
         "zero_fields": ["sched", "tape"],
         "rule": ("seeded workloads, one per (seed, index): a mesh / record list / PLY header+rows / OFF or ASCII-STL text is drawn from the "
                  "choice tape (vertex pools with shared and duplicated vertices, degenerate faces, +-0, subnormals, values beyond float32, "
